@@ -92,10 +92,12 @@ CLAIMED = {
         'UnitCubeEllipsoidMixture (all three cube/ellipsoid shapes) and Union (restricted to the unit cube or not; any number of members, any split/trim/sampling state, members abstract): '
         'read terminates normally, every field the bound\'s behaviour depends on is defined and equal to the original, every generator reference is the one handed to read; no HDF5 name is '
         'created twice or read without having been written; Union.update followed by a read is equivalent to a full write whenever the union changed only through sample() '
-        '(tree equality of update(write(u0),u1) and write(u1)).',
-   note=TRUST + 'h5py modelled as a finite map with exact storage and closed world. Member bounds of a Union are abstract with the round-trip axiom UNTREE(TREE(m)) = m (proved by the '
-        'member classes\' own units). NeuralBound / NautilusBound / NeuralNetworkEmulator round trips are not proved here: bounded runtime round-trip check (check_c09.py) and the '
-        'suite\'s test_neural_io. `block` is not restored by Union.read (only split() reads it): recorded observation.',
+        '(tree equality of update(write(u0),u1) and write(u1)). NeuralBound (with and without emulator) and NautilusBound (periodic or not, any number of neural bounds): the real '
+        'write/read bodies store and restore every field, hand every component to the reader of the class that wrote it with the right generator, and the while loop scanning the '
+        '`neural_bound_{i}` family restores the list in order and completely; NautilusBound.update is equivalent to a full write whenever the bound changed only through sample().',
+   note=TRUST + 'h5py modelled as a finite map with exact storage and closed world. Components are abstract with the round-trip axiom UNTREE(TREE(x)) = x: proved by their own units for '
+        'Ellipsoid / mixture / Union / PhaseShift (inlined) / NeuralBound; ASSUMED for NeuralNetworkEmulator (write/read iterate sklearn internals, outside the subset): bounded runtime '
+        'round-trip check (check_c09.py) and the suite\'s test_neural_io. `block` is not restored by Union.read (only split() reads it): recorded observation.',
    tech='contract-based deductive verification: symbolic execution of write;read composition over an HDF5 map theory, z3', ref='7 C09'),
  'C10': dict(
    text='Deductive proof on the real AST of Sampler.sample_shell / add_samples / run: every batch has exactly n_batch rows (loop exit + invariant), every row handed to '
